@@ -54,3 +54,51 @@ Proof.
   revert c. induction objs as [|o r IH]; intros c; cbn [assign_ivs concat fold_right]; [reflexivity|].
   now rewrite app_length, map_length, seq_length, IH.
 Qed.
+
+(* ---- exemption by identity; one object written and read back ------------------------------------------- *)
+From GoPdf.Base Require Import Res.
+From GoPdf.C09 Require Import StdSecProofs AESCorrect.
+
+Lemma kind_shape_irrelevant_l di r sh1 sh2 : kind_of di r sh1 = kind_of di r sh2.
+Proof. reflexivity. Qed.
+
+Lemma lookalike_encrypted_l di r sh pm : ordinary di r = true -> encrypts (kind_of di r sh) pm = (true, true).
+Proof.
+  unfold ordinary, kind_of. intros H.
+  repeat (apply andb_true_iff in H; destruct H as [H ?]).
+  apply negb_true_iff in H, H0, H1, H2. now rewrite H, H2, H1, H0.
+Qed.
+
+Lemma strings_rt R kb fkey aes num gen ivs ss :
+  Forall2 (fun iv s => obj_side R kb fkey aes iv s) ivs ss ->
+  dec_strings aes (key_for_ref R kb fkey aes num gen)
+    (enc_strings aes (key_for_ref R kb fkey aes num gen) ivs ss) = Ok ss.
+Proof.
+  induction 1 as [|iv s ivs ss H F IH]; [reflexivity|].
+  cbn [enc_strings dec_strings]. rewrite object_string_rt_l by assumption. cbn [bind]. rewrite IH. reflexivity.
+Qed.
+
+Definition obj_ok (c : cfg) (ivs : list bytes) (siv : bytes) (o : dobj) : Prop :=
+  Forall2 (fun iv s => obj_side (c_R c) (c_kb c) (c_fkey c) (c_aes c) iv s) ivs (o_strings o) /\
+  match o_stream o with
+  | None => True
+  | Some writes => obj_side (c_R c) (c_kb c) (c_fkey c) (c_aes c) siv (concat writes)
+  end.
+
+(* whatever the dictionary looks like - to the writer ([o_shape o]) and to the reader ([sh]) *)
+Lemma obj_rt_l c ivs siv o sh : obj_ok c ivs siv o ->
+  read_obj c (o_ref o) sh (write_obj c ivs siv o) = Ok (o_strings o, option_map (@concat _) (o_stream o)).
+Proof.
+  intros [Hs Ht]. unfold read_obj, write_obj.
+  rewrite (kind_shape_irrelevant_l (c_doc c) (o_ref o) sh (o_shape o)).
+  destruct (encrypts (kind_of (c_doc c) (o_ref o) (o_shape o)) (c_plain_meta c)) as [es et].
+  cbn [fst snd].
+  assert (E1 : (if es then dec_strings (c_aes c) (key_for_ref (c_R c) (c_kb c) (c_fkey c) (c_aes c) (fst (o_ref o)) (snd (o_ref o)))
+                  (if es then enc_strings (c_aes c) (key_for_ref (c_R c) (c_kb c) (c_fkey c) (c_aes c) (fst (o_ref o)) (snd (o_ref o))) ivs (o_strings o) else o_strings o)
+                else Ok (if es then enc_strings (c_aes c) (key_for_ref (c_R c) (c_kb c) (c_fkey c) (c_aes c) (fst (o_ref o)) (snd (o_ref o))) ivs (o_strings o) else o_strings o))
+               = Ok (o_strings o)).
+  { destruct es; [now apply strings_rt|reflexivity]. }
+  rewrite E1. cbn [bind].
+  destruct (o_stream o) as [writes|]; [|reflexivity]. cbn [option_map].
+  destruct et; [|reflexivity]. rewrite object_stream_rt_l by assumption. reflexivity.
+Qed.
